@@ -381,6 +381,13 @@ def body_history(case, ctx):
             raise Violation(f"caller-array:init:{name}", f"constructor changed the caller's {name}: shape {sn[1]} -> {arr.shape}")
     model_x = [np.asarray(r, dtype=float) for r in X0]
     model_y = [float(v) for v in y0]
+    if case["seed"] % 3 == 0:
+        # the arrays given to the constructor are the caller's: it may go on using them (the optimiser keeps the values it was given)
+        for arr in (x_in, y_in, err_in):
+            if isinstance(arr, np.ndarray) and arr.dtype.kind == "f":
+                arr += 50.0
+        snaps = [snapshot(x_in), snapshot(y_in), snapshot(err_in)]
+        ctx.event("caller re-used its data arrays after construction")
     last = None
     n_add = n_prop = 0
     for op in case["ops"]:
